@@ -17,7 +17,7 @@ fixed-point operations and is NOT proved; it is sampled against 100-digit interv
 harness. Proved (all arguments, unbounded):
 * `E_eq`, `exp_zero`, `exp_neg_is_recip`, `iterations_le_cap` — structure of `ref_exp`;
 * `ln_fails_iff_nonpos`, `ln_panics_iff_nonpos_or_inner` — domain of `ln`;
-* `pow_special_cases` — the special arms of `pow`;
+* `pow_special_cases`, `pow_neg_base` — the special arms and the sign rule of `pow`;
 * `findE_brackets_partial` — the bisection returns an exponent inside the initial bracket whose
   moved ends were justified by comparisons against `ipow E ·`;
 * `taylor_lower_partial`, `exp_lower_partial` — one-sided real bound: for `0 ≤ x` the Taylor sum and
@@ -111,6 +111,28 @@ theorem pow_special_cases (b y : Int) :
     have h2 : ¬ y > 0 := by omega
     simp [refPow, h0, h1, hy1, h2, h]
 
+/-- sign rule of `pow` for a negative base: the magnitude is `pow` of the negated base, the sign is
+    negative exactly when the integer part of the exponent (truncated) is odd -/
+theorem pow_neg_base (b y : Int) (hb : 0 < b) (hb1 : b ≠ ONE) (hy0 : y ≠ 0) (hy1 : y ≠ ONE) :
+    refPow (-b) y = (refPow b y).map (fun r => if (y.tdiv P).tmod 2 = 0 then r else -r) := by
+  have h1 : -b ≠ ONE := by have : (0 : Int) < ONE := by decide
+                           omega
+  have h2 : -b ≠ 0 := by omega
+  have h3 : b ≠ 0 := by omega
+  have h4 : -b < 0 := by omega
+  have h5 : ¬ b < 0 := by omega
+  simp only [refPow, hy0, h1, hb1, hy1, h2, h3, h4, h5, false_and, if_false, if_true, Int.neg_neg, or_self]
+  cases refLn b with
+  | none => rfl
+  | some o =>
+    cases o with
+    | none => rfl
+    | some tmp =>
+      simp only
+      cases refExp (scale (tmp * y)) with
+      | none => rfl
+      | some p => obtain ⟨it, r⟩ := p; rfl
+
 /-- the bisection of `find_e` returns an exponent inside the bracket it is given; an end of the
     bracket that moved was moved by a comparison against `ipow E ·`, so `E^r ≤ x < E^(r+1)` holds
     in model arithmetic for every moved end -/
@@ -180,6 +202,7 @@ example : expD ONE = some 27182818284590452353602874043083282 := by decide +kern
 example : expD (-ONE) = some 3678794411714423215955237792349248 := by decide +kernel
 example : lnD (2 * ONE) = some 6931471805599453094172321818152860 := by decide +kernel
 example : lnD 0 = none ∧ lnD (-ONE) = none := by decide +kernel
+example : lnD ONE = some 0 := by decide +kernel
 example : powD (2 * ONE) (10 * ONE) = some 10240000000000000000000004785057073557 := by decide +kernel
 example : powD (-2 * ONE) (3 * ONE) = some (-79999999999999999999999979824238600) := by decide +kernel
 
